@@ -125,7 +125,9 @@ def run_priority(ctx, res, case):
                           % (sorted(u for u in sim.granted if u != 'blk'),
                              sim.waiting(), high),
                           {'case': case, 'trace': sim.trace})
-    except (TimeoutError, RuntimeError) as e:
+    except TimeoutError as e:
+        res.inconc('priority scenario: %r' % e)
+    except RuntimeError as e:
         res.violation('history-stuck', repr(e), {'case': case})
     finally:
         if sim:
